@@ -129,6 +129,12 @@ pub fn get_user_data(raw_value: &[u8]) -> &[u8] {
     }
 }
 
+/// True when the stored value carries a record header with DELETE_BIT set: a tombstone left
+/// behind by DELETE.  Scans skip such entries; DML must do the same.
+pub fn is_tombstone(raw_value: &[u8]) -> bool {
+    raw_value.len() >= RecordHeader::SIZE && RecordHeader::from_bytes(raw_value).is_deleted()
+}
+
 pub fn has_mvcc_header(raw_value: &[u8]) -> bool {
     raw_value.len() >= RecordHeader::SIZE
 }
